@@ -114,8 +114,16 @@ def gen_case(rng, thorough):
         if drains:
             # drain to empty: pop len+slack times (extra pops just answer IndexError)
             lines += ["pos 0 popleft"] * (n_hist // max(1, drains) + 3)
+    withdrawn = 0
+    if rng.random() < 0.3:
+        # entries withdrawn with find(remove=True) (queue_find(remove=True) of task_switch & co.):
+        # they leave the queue without passing through popleft/remove
+        withdrawn = rng.choice([12, 40, 90])
+        for _ in range(withdrawn):
+            o = next(nxt)
+            lines += [f"pos 0 appendpri {o} 7", f"pos 0 find {o} 1"]
     meta = {"factor": factor, "draw": draw, "n_hist": n_hist, "drains": drains, "qlen": qlen,
-            "positional": positional}
+            "positional": positional, "withdrawn": withdrawn}
     # the straggler and the background
     strag = next(nxt)
     setup = []
@@ -291,6 +299,8 @@ def oracle(lines, outs, meta, tags):
         tags.add("equal-priorities-with-positional-head")
     if meta["n_hist"] >= 200:
         tags.add("long-history")
+    if meta.get("withdrawn"):
+        tags.add("history-with-find-removals")
     if meta["drains"]:
         tags.add("drained-to-empty")
     return None
